@@ -143,10 +143,11 @@ def run(tier, seed):
     t0 = time.time()
     v = vlib.Verdict(PID)
     q = tier == "quick"
-    mc_cfgs = ["Resolver_mc2.cfg", "Resolver_mc3.cfg", "Resolver_mcdir.cfg", "Resolver_live.cfg"]
-    gen_cfgs = ["Resolver_gen21q.cfg" if q else "Resolver_gen21.cfg", "Resolver_gen22.cfg", "Resolver_gen31.cfg", "Resolver_gendir.cfg"]
+    mc_cfgs = ["Resolver_mc2.cfg", "Resolver_mc3.cfg", "Resolver_mcdir.cfg", "Resolver_mcrep.cfg", "Resolver_live.cfg"]
+    gen_cfgs = ["Resolver_gen21q.cfg" if q else "Resolver_gen21.cfg", "Resolver_gen22.cfg", "Resolver_gen31.cfg", "Resolver_gendir.cfg", "Resolver_genrep.cfg"]
     wits = [("Resolver_w_shared_chain.cfg", "shared_chain"), ("Resolver_w_cache_wait.cfg", "cache_wait_unbounded"),
-            ("Resolver_w_loading_pops_last.cfg", "loading_pops_last")]
+            ("Resolver_w_loading_pops_last.cfg", "loading_pops_last"),
+            ("Resolver_w_budget_reset.cfg", "budget_reset_needs_idle_resolver")]
     tlc_runs, cov = [], {}
     states = trans = 0
     cases = []
